@@ -6,7 +6,7 @@ import struct
 # scalar kinds: (size, align, js typed array) on wasm32
 SCALARS = {
     "u8": (1, 1), "i16": (2, 2), "u32": (4, 4), "u64": (8, 8), "f32": (4, 4), "f64": (8, 8), "bool": (1, 1),
-    "char": (4, 4), "usize": (4, 4), "en": (4, 4), "ptr": (4, 4), "i8": (1, 1), "u16": (2, 2), "i32": (4, 4), "i64": (8, 8),
+    "char": (4, 4), "usize": (4, 4), "en": (4, 4), "ptr": (4, 4), "i8": (1, 1), "u16": (2, 2), "i32": (4, 4), "i64": (8, 8), "isize": (4, 4),
 }
 
 ENUM = [("A", 0), ("B", 5), ("C", -6)]
@@ -21,8 +21,18 @@ def utf8_of_js_string(v):
     return v.encode("utf-16-le", "surrogatepass").decode("utf-16-le", "replace").encode("utf-8")
 
 
+class PSlice(list):
+    """a value of a primitive slice with an element kind other than u8"""
+
+    def __init__(self, elem, xs):
+        list.__init__(self, xs)
+        self.elem = elem
+
+
 def slice_enc(v):
     """-> (content bytes, element size) of a slice value"""
+    if isinstance(v, PSlice):
+        return b"".join(enc_scalar(v.elem, x) for x in v), SCALARS[v.elem][0]
     if isinstance(v, U8Str):
         return utf8_of_js_string(v), 1
     if isinstance(v, str):
@@ -66,6 +76,23 @@ EN = FT("en", "En", "En", "en", [0, 1, 2])  # variant index
 OP = FT("op", "&'a Op", "u32", "ptr", [0x1000, 0xFFFFFFF0])
 OOP = FT("oop", "Option<&'a Op>", "u32", "ptr", [None, 0x2000])
 SL8 = FT("sl8", "DiplomatSlice<'a, u8>", "[u32; 2]", "slice", [[], [1, 2, 3]])
+# primitive slices of every element width / signedness class (the JS side picks a typed-array kind and an element size per type)
+def _ps(key, rust, elem, xs):
+    return FT(key, "DiplomatSlice<'a, %s>" % rust, "[u32; 2]", "slice", [PSlice(elem, []), PSlice(elem, xs)])
+
+
+SLI8 = _ps("sli8", "i8", "i8", [-1, 127, -128])
+SLU16 = _ps("slu16", "u16", "u16", [1, 0xFFFF, 0x0102])
+SLI32 = _ps("sli32", "i32", "i32", [-1, 0x7FFFFFFF, -0x80000000])
+SLISZ = _ps("slisz", "isize", "isize", [-1, 0x7FFFFFFF, -0x80000000])
+SLUSZ = _ps("slusz", "usize", "usize", [1, 0xFFFFFFFF])
+SLI64 = _ps("sli64", "i64", "i64", [-1, 1 << 40, -(1 << 63)])
+SLU64 = _ps("slu64", "u64", "u64", [1, (1 << 64) - 1])
+SLF32 = _ps("slf32", "f32", "f32", [1.5, -2.25])
+SLF64 = _ps("slf64", "f64", "f64", [1.5, -2.25e100])
+SLCH = _ps("slch", "DiplomatChar", "char", [0x41, 0x20AC, 0x10FFFF])
+SLBOOL = _ps("slbool", "bool", "bool", [True, False, True])
+TYPED_SLICES = [SLI8, SLU16, SLI32, SLISZ, SLUSZ, SLI64, SLU64, SLF32, SLF64, SLCH, SLBOOL]
 # UTF-16 views are unvalidated: an unpaired surrogate and a leading U+FEFF are ordinary code units and must survive
 # UTF-8 string slice: the JS side measures the UTF-8 length itself (lone surrogates become U+FFFD, 3 bytes)
 ST8 = FT("st8", "DiplomatStrSlice<'a>", "[u32; 2]", "slice", [U8Str(""), U8Str("a\u00e9\u20ac\U0001d11e"), U8Str("a\ud800"), U8Str("\ud800\u00e9"), U8Str("\udc00z")])
@@ -123,6 +150,10 @@ def universe(tier):
     for n in (1, 2):
         for combo in itertools.product(ALPHABET, repeat=n):
             out.append(StructDef("S%d" % k, [("f%d" % i, t) for i, t in enumerate(combo)]))
+            k += 1
+    for t in TYPED_SLICES:
+        for combo in ((t,), (U8, t), (t, U8), (U64, t), (t, t)):
+            out.append(StructDef("S%d" % k, [("f%d" % i, x) for i, x in enumerate(combo)]))
             k += 1
     if tier == "thorough":
         for combo in itertools.product(ALPHA12, repeat=3):
@@ -224,6 +255,10 @@ def enc_scalar(kind, v):
         return struct.pack("<i", ENUM[v][1])
     if kind == "u64":
         return struct.pack("<Q", v)
+    if kind == "i64":
+        return struct.pack("<q", v)
+    if kind in ("i32", "isize"):
+        return struct.pack("<i", v)
     if kind == "f32":
         return struct.pack("<f", v)
     if kind == "f64":
